@@ -13,7 +13,7 @@ from ..cfg import cfg_of
 from ..model import own_nodes
 from ..values import pattern, match, match_any, find, contains, show, subterms
 from ..domains import polarity, POS, NEG, ZERO
-from .base import obligation, src, callee_name
+from .base import obligation, src, callee_name, if_branches, split_if
 from .C04 import pattern_term, returns, enclosing_loop, _inside
 
 M = 'elfi.methods.mcmc'
@@ -209,20 +209,26 @@ def _metropolis_roles(ctx, f):
                             is not None:
                         restores.append((s, block, n, block is n.body))
     tests = []
+    from .base import negate_term
     for (s, block, ifn, in_body) in restores:
-        if in_body:
-            t = ex.raw(ifn.test)
-            if t[0] == 'name':
-                t = ex.raw1(ifn.test)
-            parts = list(t[2]) if t[0] == 'bool' and t[1] == 'or' else [t]
-            for p in parts:
-                if p[0] == 'name':
-                    # a named sub-condition
-                    for nme in ast.walk(ifn.test):
-                        if isinstance(nme, ast.Name) and nme.id == p[1]:
-                            p = ex.raw1(nme)
-                            break
-                tests.append(p)
+        t = ex.raw(ifn.test)
+        if t[0] == 'name':
+            t = ex.raw1(ifn.test)
+        if not in_body:
+            t = t[2] if (t[0] == 'unary' and t[1] == 'not') else negate_term(t)
+            if t is None:
+                continue
+        while t[0] == 'unary' and t[1] == 'not' and t[2][0] == 'unary' and t[2][1] == 'not':
+            t = t[2][2]
+        parts = list(t[2]) if t[0] == 'bool' and t[1] == 'or' else [t]
+        for p in parts:
+            if p[0] == 'name':
+                # a named sub-condition
+                for nme in ast.walk(ifn.test):
+                    if isinstance(nme, ast.Name) and nme.id == p[1]:
+                        p = ex.raw1(nme)
+                        break
+            tests.append(p)
     return {'loop': lo, 'ii': ii, 'buf': buf, 'cur': cur, 'prev': prev, 'cur_def': cur_defs[0],
             'prev_def': prev_defs[0], 'restores': restores, 'tests': tests}
 
